@@ -51,7 +51,10 @@ def gen_args(tp, st):
         elif k == 5:
             val = [tp.choice(NUMS) for _ in range(1 + tp.draw(3))]
         elif k == 6 and st['cbus']:
-            val = ['cbus', tp.choice(st['cbus'])]
+            # the bus object itself, or its map symbol ('c3') as the value
+            val = [tp.choice(['cbus', 'cbus', 'cmap']), tp.choice(st['cbus'])]
+        elif k == 6 and st['abus']:
+            val = ['amap', tp.choice(st['abus'])]
         elif k == 7 and st['buf']:
             val = ['buf', tp.choice(st['buf'])]
         else:
@@ -138,6 +141,10 @@ def gen_op(tp, st, inner=False):
                     [tp.choice(NUMS) for _ in range(1 + tp.draw(3))]]
         if k == 3:
             return ['bfill', b, tp.draw(8), 1 + tp.draw(8), tp.choice(NUMS)]
+        if k == 4 and not inner and tp.draw(2):
+            # a large list streamed by send_list in /b_setn chunks
+            return ['bsendlist', b, tp.choice([100, 1626, 1627, 2048, 3252,
+                                               4000]), tp.draw(3)]
         if isinstance(b, str):
             # consecutive buffers are one allocation: the documentation
             # requires treating them as a group (only free_all)
@@ -412,6 +419,27 @@ def run_world(case, tape, ctx, w):
             if b is None or b._index is None:
                 return 0, 0
             return b, b._index
+        if isinstance(v, list) and v and v[0] in ('cmap', 'amap'):
+            b = real.get(v[1])
+            if b is None:
+                return 0, 0
+            live = model[v[1]]['live']
+            try:
+                sym = b.as_map()
+            except sbus.BusException:
+                if live:
+                    viol.add('C17-3', 'bus-as-map-refused',
+                             'as_map() of an allocated bus raised')
+                bump('F10-freed-bus-as-map-refused')
+                return 0, 0
+            if not live:
+                viol.add('C17-2', 'freed-bus-named',
+                         f'as_map() of a freed bus returned {sym!r}: the '
+                         f'command would name a bus id the client has '
+                         f'returned to the allocator')
+                return 0, 0
+            bump('bus-map-symbol')
+            return sym, v[0][0] + str(model[v[1]]['id'])
         if isinstance(v, list) and v and v[0] == 'buf':
             b = real.get(v[1])
             if b is None or b._bufnum is None:
@@ -529,7 +557,7 @@ def run_world(case, tape, ctx, w):
             # (a dict with list values is refused by the library with
             # ValueError: no command is emitted, nothing for C17 to judge)
             use_dict = not as_list and not any(
-                isinstance(v, list) and (not v or v[0] not in ('cbus', 'buf'))
+                isinstance(v, list) and (not v or v[0] not in ('cbus', 'buf', 'cmap', 'amap'))
                 for _, v in args)
             py, wire = conv_args(args, use_dict)
             syn = snod.Synth(dname, py if py else None, tobj, action)
@@ -673,6 +701,47 @@ def run_world(case, tape, ctx, w):
                     return [('m', ['/b_free', num, wire(num)])]
                 bump('F10-buffer-double-free')
                 return []          # a second free owns nothing any more
+        if kind == 'bsendlist':
+            b = real.get(op[1])
+            if b is None or b.bufnum is None or not rt \
+                    or case['where'] != 'main' or main.current_tt is not \
+                    main.main_tt or case['knobs'].get('f6_pm'):
+                # (the stream is sent by a routine on SystemClock: with send
+                # errors injected there it legitimately stops half way)
+                return []
+            n, start = op[2], op[3]
+            data = [float((i * 7) % 13 - 6) for i in range(n)]
+            mark = mark_now()
+            pos = 0
+            want = []
+            while pos < n:
+                chunk = data[pos:pos + 1626]
+                want.append(['/b_setn', b.bufnum, start * b.channels + pos,
+                             len(chunk)] + chunk)
+                pos += 1626
+            b.send_list(data, start, wait=0)
+            # the streaming routine runs on SystemClock (which may be late)
+            for _ in range(400):
+                k.sleep(0.05)
+                got = [g for g in wire_since(mark, any_thread=True)
+                       if g[0] == 'm' and g[1][0] == '/b_setn'
+                       and g[1][1] == b.bufnum]
+                if len(got) >= len(want):
+                    k.sleep(0.05)
+                    break
+            got = [g for g in wire_since(mark, any_thread=True)
+                   if g[0] == 'm' and g[1][0] == '/b_setn'
+                   and g[1][1] == b.bufnum]
+            bump('send-list')
+            if [g[1] for g in got] != want:
+                def head(m):
+                    return m[:4] + [f'... {len(m) - 4} value(s)']
+                viol.add('C17-3', 'command-bsendlist',
+                         f'{op}: send_list of {n} samples put '
+                         f'{[head(g[1]) for g in got]} on the wire, expected '
+                         f'{[head(m) for m in want]}')
+            dest[0] = 'drop'       # already compared: nothing more to match
+            return []
         if kind == 'bfreeall':
             live = sorted(m['id'] for m in model.values()
                           if m['kind'] == 'buf' and m['live'])
@@ -736,13 +805,19 @@ def run_world(case, tape, ctx, w):
     io_failed = []
 
     # ---- wire observation
-    def wire_since(mark):
+    def wire_since(mark, any_thread=False):
         """-> list of ('m', list) / ('b', timetag, [list...]) captured from
         this thread since `mark`"""
         out = []
+        if rt and dest[0] == 'drop':
+            return out
         if rt:
             me = k.current.idx
             for now, src, dst, data, idx in w.net.captured[mark:]:
+                if any_thread:
+                    if dst != ADDR1:
+                        continue
+                    idx = me
                 if idx == me and dst in (ADDR1, ADDR2) and dst != dest[0]:
                     viol.add('C17-1', 'command-to-another-server',
                              f'a command for the server at {dest[0]} went to '
